@@ -306,7 +306,9 @@ class FlowContainer:
         return self.rows
 
     def to_row_data_sheet(self, strip_uuids=False, numbered=False):
-        target_headers = {"edges.*.condition"}
+        # Packed into one cell each: the condition of an edge and the untyped list of
+        # header pairs of a webhook (the latter cannot be read back from spread columns)
+        target_headers = {"edges.*.condition", "webhook.headers"}
         excluded_headers = {"obj_id", "_nodeId"} if strip_uuids else {}
         rows = self.to_rows(numbered)
         row_parser = RowParser(FlowRowModel, CellParser())
